@@ -29,3 +29,14 @@ func VerifConnPages(p *StreamPool) (linked, counted []int) {
 	}
 	return
 }
+
+// VerifPoolStreams lists the streams of the connections currently stored in the pool. The caller
+// must be quiescent (no Assemble or Flush call in progress).
+func VerifPoolStreams(p *StreamPool) (streams []Stream) {
+	p.mu.RLock()
+	defer p.mu.RUnlock()
+	for _, c := range p.conns {
+		streams = append(streams, c.stream)
+	}
+	return
+}
